@@ -588,12 +588,20 @@ func writeEvidence(id, tier string, seed uint64, m propMeta, t workerResult, dis
 // different GOMAXPROCS and compares the per-run digests.
 func determinismCmd(args []string) int {
 	if len(args) < 1 {
-		infra("usage: --determinism <ID> [n]")
+		infra("usage: --determinism <ID> [n [stride]]")
 	}
 	id := args[0]
 	n := 40
 	if len(args) > 1 {
 		n, _ = strconv.Atoi(args[1])
+	}
+	// optional third argument: a stride — run indices 0, stride, 2*stride, … instead of 0..n-1,
+	// which spreads the sample over an enumerated scenario list
+	stride := "1"
+	if len(args) > 2 {
+		if v, err := strconv.Atoi(args[2]); err == nil && v > 0 {
+			stride = fmt.Sprint(v)
+		}
 	}
 	bin := build(id, isRace(id))
 	tmp, _ := os.MkdirTemp("", "simdet-")
@@ -609,7 +617,7 @@ func determinismCmd(args []string) int {
 			seed = s
 		}
 		o, err := run(root, append(os.Environ(), "GOMAXPROCS="+procs, "VERIF_REPO="+repoDir, "GORACE=halt_on_error=0 history_size=3 log_path="+filepath.Join(wtmp, "race")), bin, "-test.run", "^TestWorker$", "-test.timeout", "0", "-sim.prop", id,
-			"-sim.seed", seed, "-sim.shard", "0", "-sim.shards", "1", "-sim.max", fmt.Sprint(n), "-sim.budget", "30m", "-sim.out", out, "-sim.digests", "-sim.tmp", wtmp)
+			"-sim.seed", seed, "-sim.shard", "0", "-sim.shards", stride, "-sim.max", fmt.Sprint(n), "-sim.budget", "30m", "-sim.out", out, "-sim.digests", "-sim.tmp", wtmp)
 		b, rerr := os.ReadFile(out)
 		if rerr != nil {
 			infra("determinism worker: %v %s", err, o)
